@@ -1,7 +1,7 @@
 """C05 -- forward compatibility: an older schema decodes data from an extended one."""
 import random
 
-from .. import cdrive, common, drive, evolve, gen, render, tlc
+from .. import aheadsweep, cdrive, common, drive, evolve, gen, render, tlc
 from ..report import Report
 from . import cwire, designlevel, pywire
 
@@ -94,6 +94,11 @@ def main(tier, replay=None):
                 for s in descr:
                     rep.feature("step:" + s[0])
                 rep.feature("chain-length-%d" % (len(versions) - 1))
+            # directed family: the 16-bit prefix at every bit offset, announcing values that use all of its bits
+            for idx, (kind, r_, a_) in enumerate(aheadsweep.family(tier)):
+                o_, n_, descr = (aheadsweep.msg_pair if kind == "msg" else aheadsweep.arr_pair)(r_, a_)
+                chains.append((100000 + idx, [o_, n_], descr, random.Random("c05-ahead/%d/%d" % (seed, idx))))
+                rep.feature("prefix-sweep:%s" % kind)
             # Python runtime: newest (and intermediate) senders -> oldest receiver
             cjobs = []
             for k, versions, descr, rng in chains:
